@@ -733,8 +733,17 @@ fn main() {
             let _ = tier;
             futures_buffered::verif::install(probe_alloc, probe_release, probe_vtable);
             let b = loom::model::Builder::new();
+            let t0 = std::time::Instant::now();
             b.check(f);
-            println!("LX-OK schedules={} outcomes={}", SCHEDULES.load(O::Relaxed), OUTCOMES.lock().unwrap().len());
+            // loom stops silently when LOOM_MAX_DURATION is exceeded: say so, such a run is not exhaustive
+            let capped = b.max_duration.map_or(false, |d| t0.elapsed() >= d);
+            println!(
+                "LX-OK schedules={} outcomes={} capped={} bound={}",
+                SCHEDULES.load(O::Relaxed),
+                OUTCOMES.lock().unwrap().len(),
+                capped as u8,
+                b.preemption_bound.map_or(-1, |x| x as i64)
+            );
         }
         _ => {
             eprintln!("usage: lx list <Cxx> <tier> | lx run <scenario> <tier>");
